@@ -8,7 +8,7 @@ CFG = dict(
               "translate_spec", "scaleAbout_spec", "scaleMesh_spec", "rotate_spec", "applyTRS_spec", "center_spec",
               "normalize_spec", "translate_post", "scaleAbout_post", "rotate_post", "rotate_unit_post", "applyTRS_post", "center_post", "normalize_post",
               "smoothAccum_sum", "smoothAccum_perm", "smoothNormals_values", "smoothNormalAt_unit", "smoothNormalAt_unreferenced", "smoothNormals_spec",
-              "flatAccum_last", "flatNormals_values", "normalized_idem", "flatNormals_spec", "lastFace_unwelded",
+              "flatAccum_last", "flatNormals_values", "normalized_idem", "flatNormals_spec", "lastFace_unwelded", "flatNormalAt_unwelded",
               "laplacian_order_independent", "lapIter_any_enumeration", "lapUpdate_value", "lapSweepWith_succ", "lapSweepWith_untouched",
               "neighbours_mem", "neighbours_nodup", "laplacian_spec",
               "laplacian_frame", "smoothNormals_frame", "flatNormals_frame"],
